@@ -85,6 +85,8 @@ func allocOpts(kind string, B int) resourcetypes.Resources {
 		bind, cpu, mem = false, 0.5, 1
 	case "u00":
 		bind, cpu, mem = false, 0, 2
+	case "ulim": // request below limit (cpu 0.5 / 1.0), no memory limit at all: the plugin normalises such requests
+		return resourcetypes.Resources{"cpumem": resourcetypes.RawParams{"cpu-bind": false, "cpu-request": 0.5, "cpu-limit": 1.0, "memory-request": int64(0), "memory-limit": int64(0)}}
 	default:
 		panic("alloc kind " + kind)
 	}
@@ -102,6 +104,10 @@ func reallocOpts(kind string) resourcetypes.Resources {
 		p["memory-request"], p["memory-limit"] = int64(1), int64(1)
 	case "mem-":
 		p["memory-request"], p["memory-limit"] = int64(-1), int64(-1)
+	case "memlim+": // only the memory LIMIT is given: the request follows it when it was zero
+		p["memory-limit"] = int64(1)
+	case "cpureq-": // only the cpu REQUEST is lowered
+		p["cpu-request"] = -0.5
 	case "keep": // nothing changes
 	case "unbind":
 		p["keep-cpu-bind"], p["cpu-bind"] = false, false
@@ -380,8 +386,8 @@ func histNode(kind string) nodeSt {
 }
 
 var histNodeKinds = []string{"plain4", "numa4", "numa6", "share3", "plain2"}
-var allocKinds = []string{"b10", "b05", "b15", "b20", "u05", "u00"}
-var reallocKinds = []string{"cpu+", "cpu-", "mem+", "mem-", "keep", "unbind", "bind"}
+var allocKinds = []string{"b10", "b05", "b15", "b20", "u05", "u00", "ulim"}
+var reallocKinds = []string{"cpu+", "cpu-", "mem+", "mem-", "keep", "unbind", "bind", "memlim+", "cpureq-"}
 
 func randHist(rng *rand.Rand, run int) *histIn {
 	in := &histIn{Node: histNode(histNodeKinds[rng.Intn(len(histNodeKinds))]), Run: run}
